@@ -679,6 +679,11 @@ func (r *Renderer) renderText(w util.BufWriter, source []byte, node ast.Node, en
 							_ = w.WriteByte('\n')
 						}
 					}
+				} else if siblingFirstRune, ok := firstTextRune(sibling, source); !ok ||
+					r.EastAsianLineBreaks.softLineBreak(util.ToRune(value, len(value)-1), siblingFirstRune) {
+					// the break is followed by a non-text node (emphasis, link, code span, ...): decide on
+					// the first character of its text, and keep the break when it has none
+					_ = w.WriteByte('\n')
 				}
 			} else {
 				_ = w.WriteByte('\n')
@@ -686,6 +691,30 @@ func (r *Renderer) renderText(w util.BufWriter, source []byte, node ast.Node, en
 		}
 	}
 	return ast.WalkContinue, nil
+}
+
+// firstTextRune returns the first character of the textual content of n in document order.
+func firstTextRune(n ast.Node, source []byte) (rune, bool) {
+	if n == nil {
+		return 0, false
+	}
+	var v []byte
+	switch t := n.(type) {
+	case *ast.Text:
+		v = t.Value(source)
+	case *ast.String:
+		v = t.Value
+	}
+	if len(v) != 0 {
+		c, _ := utf8.DecodeRune(v)
+		return c, true
+	}
+	for c := n.FirstChild(); c != nil; c = c.NextSibling() {
+		if r, ok := firstTextRune(c, source); ok {
+			return r, true
+		}
+	}
+	return 0, false
 }
 
 func (r *Renderer) renderString(w util.BufWriter, source []byte, node ast.Node, entering bool) (ast.WalkStatus, error) {
